@@ -107,7 +107,8 @@ def build_old_file(nix, np, rng, path):
                     "str": [rng.choice(["a", "üñ", "", "x y", "long " * 20]) for _ in range(n)],
                     "bool": [rng.random() < 0.5 for _ in range(n)]}[typ]
             pname = rng.choice(["p", "prop", "ü", "q.r"]) + str(pi)
-            unit, defi = rng.choice([None, "mV", "s"]), rng.choice([None, "defn", "ü def"])
+            # (units as other tools wrote them: with a micro sign, a Greek mu, blanks - they are content and must read as before)
+            unit, defi = rng.choice([None, "mV", "s", "µV", "μs", "mV / ms", "mumol", "k Ohm"]), rng.choice([None, "defn", "ü def"])
             prop_paths.append(("%s/properties/%s" % (h5path, pname), typ, vals, unit, defi, pname, h5path))
         if depth < 2:
             for ci in range(rng.randint(0, 2)):
